@@ -41,6 +41,6 @@ def replay(ctx, data, cmds):
         if '-dir' in args:
             args[args.index('-dir') + 1] = ctx.scratchdir()
     n, mism, _ = common.corr(ctx, 'replay', data['go_cmd'], args, data['driver_args'], only=set(data['only']) if data.get('only') else None,
-                             const=data.get('const'), timeout=7200)
+                             const=data.get('const'), timeout=7200, ok_exit=(0, 1, 3, 66))
     print('REPLAY:', 'reproduces ' + str(mism[0])[:600] if mism else 'no longer fails')
     return 1 if mism else 0
